@@ -119,7 +119,7 @@ def run(chk):
                                   "ns nsA", "add " + hx(b"rule later { condition: true }\n"), "ns nsB", "add " + hx(target.encode()),
                                   "getrules", "scanner 0"] + scans))
         meta[i] = (target, others, bufs, imp)
-    out, err = vlib.run_cases(hscan, cases, timeout=3000)
+    out, err = vlib.run_cases(hscan, cases, timeout=3000, jobs=16)
     agree = 0
     nontriv = set()
     certq, certid = [], []
